@@ -10,6 +10,7 @@ import BtcVerif.Props.C16
 import BtcVerif.Props.C18
 import BtcVerif.Proofs.ScriptEvalInv
 import BtcVerif.Model.ScriptEnvReal
+import BtcVerif.Props.Coherence
 
 namespace BtcVerif.Concrete
 open BtcVerif BtcVerif.Crypto
@@ -43,5 +44,17 @@ theorem real_hash160_length (x : Bytes) : (Model.ScriptEval.Real.realHashes.hash
   ripemd160_length _
 theorem real_hash256_length (x : Bytes) : (Model.ScriptEval.Real.realHashes.hash256 x).length = 32 :=
   sha256_length _
+
+/-- C13, text level with the real checksum hash: the WIF string of a 32-byte secret under each chain's
+    SECRET_KEY version byte parses back to the same secret and flag — hence the same public key -/
+theorem c13_wif_text_roundtrip_sha256 (p : Spec.ChainParams) (hp : p ∈ Spec.chainTable) (secret : Bytes) (c : Bool)
+    (hs : secret.length = 32) :
+    ∃ d, Model.Base58.fromBytes (Model.Keys.wifPayload secret c) (p.secretKey : Int) = .ok d ∧
+      ∃ d', Model.Base58.new hash256 (Model.Base58.str hash256 d) = .ok d' ∧
+        ∃ sec c', Model.Keys.wifParse p.secretKey d'.nVersion.toNat d'.data = .ok (sec, c') ∧
+          sec = secret ∧ c' = c ∧ Model.Keys.pubOfSecret sec c' = Model.Keys.pubOfSecret secret c := by
+  obtain ⟨d, h1, d', h2, h3⟩ :=
+    BtcVerif.Coherence.wif_text_roundtrip_chains hash256 (fun x => by rw [hash256_length]; omega) p hp secret c hs
+  exact ⟨d, h1, d', h2, secret, c, h3, rfl, rfl, rfl⟩
 
 end BtcVerif.Concrete
